@@ -158,6 +158,51 @@ def functions(tree):
     return out
 
 
+_FLIP = {ast.Lt: ast.Gt, ast.Gt: ast.Lt, ast.LtE: ast.GtE, ast.GtE: ast.LtE, ast.Eq: ast.Eq, ast.NotEq: ast.NotEq}
+
+
+def _is_const(e):
+    return isinstance(e, ast.Constant) or (isinstance(e, ast.UnaryOp) and isinstance(e.op, ast.USub) and isinstance(e.operand, ast.Constant))
+
+
+class _NormalForm(ast.NodeTransformer):
+    """Two spelling normalisations that cannot change behaviour:
+
+      `c < x`  ->  `x > c`      single comparison, literal on the left and not on the right (no evaluation order
+                                to preserve: a literal has no effects)
+      `x = x + k` -> `x += k`   local name, + or -, integer literal k (then `x` is a number: no in-place/aliasing
+                                difference between the two forms)
+    """
+
+    def __init__(self):
+        self.count = 0
+
+    def visit_Compare(self, n):
+        self.generic_visit(n)
+        if len(n.ops) == 1 and type(n.ops[0]) in _FLIP and _is_const(n.left) and not _is_const(n.comparators[0]):
+            self.count += 1
+            return ast.copy_location(ast.Compare(left=n.comparators[0], ops=[_FLIP[type(n.ops[0])]()],
+                                                 comparators=[n.left]), n)
+        return n
+
+    def visit_Assign(self, n):
+        self.generic_visit(n)
+        v = n.value
+        if (len(n.targets) == 1 and isinstance(n.targets[0], ast.Name) and isinstance(v, ast.BinOp)
+                and isinstance(v.op, (ast.Add, ast.Sub)) and isinstance(v.left, ast.Name)
+                and v.left.id == n.targets[0].id and isinstance(v.right, ast.Constant)
+                and type(v.right.value) is int):
+            self.count += 1
+            return ast.copy_location(ast.AugAssign(target=n.targets[0], op=v.op, value=v.right), n)
+        return n
+
+
+def normal_form(tree):
+    nf = _NormalForm()
+    nf.visit(tree)
+    return nf.count
+
+
 _table = None
 
 
@@ -201,21 +246,62 @@ def plan(fn, ref):
 
 def normalise(tree, relpath):
     """Rename locals of every function of `tree` back to the reference names; returns the list of renames."""
-    ref = table().get(relpath)
     done = []
+    k = normal_form(tree)
+    if k:
+        done.append('%s: %d spelling normalisation(s)' % (relpath, k))
+    ref = table().get(relpath)
     if not ref:
         return done
     for key, fn in functions(tree):
         if key not in ref:
             continue
-        ren = plan(fn, [tuple(x) for x in ref[key]])
-        if not ren:
-            continue
-        for n in _own(fn):
-            if isinstance(n, ast.Name) and n.id in ren:
-                n.id = ren[n.id]
-        done.extend('%s:%s %s->%s' % (relpath, key, c, r) for c, r in sorted(ren.items()))
+        ren = plan(fn, [tuple(x) for x in ref[key].get('locals', [])])
+        if ren:
+            for n in _own(fn):
+                if isinstance(n, ast.Name) and n.id in ren:
+                    n.id = ren[n.id]
+            done.extend('%s:%s %s->%s' % (relpath, key, c, r) for c, r in sorted(ren.items()))
+        # comparisons written the other way round than on the reference tree are turned back
+        refcmp = set(ref[key].get('cmp', []))
+        if refcmp:
+            for n in _own(fn):
+                if _flippable(n):
+                    t = _text(n)
+                    if t not in refcmp:
+                        ft = _text(_flipped(n))
+                        if ft in refcmp:
+                            n.left, n.ops, n.comparators = n.comparators[0], [_FLIP[type(n.ops[0])]()], [n.left]
+                            done.append('%s:%s `%s` read as `%s`' % (relpath, key, t, ft))
     return done
+
+
+def _text(n):
+    return ' '.join(ast.unparse(n).split())
+
+
+def _simple(e):
+    """Operand whose evaluation has no effect and raises nothing of interest: swapping two of them is unobservable."""
+    if isinstance(e, (ast.Name, ast.Constant)):
+        return True
+    if isinstance(e, ast.Attribute):
+        return _simple(e.value)
+    if isinstance(e, ast.Call):
+        return isinstance(e.func, ast.Name) and e.func.id == 'len' and len(e.args) == 1 and not e.keywords and _simple(e.args[0])
+    if isinstance(e, ast.BinOp):
+        return _simple(e.left) and _simple(e.right)
+    if isinstance(e, ast.UnaryOp):
+        return _simple(e.operand)
+    return False
+
+
+def _flippable(n):
+    return isinstance(n, ast.Compare) and len(n.ops) == 1 and type(n.ops[0]) in _FLIP and \
+        _simple(n.left) and _simple(n.comparators[0])
+
+
+def _flipped(n):
+    return ast.Compare(left=n.comparators[0], ops=[_FLIP[type(n.ops[0])]()], comparators=[n.left])
 
 
 def generate(repo):
@@ -230,11 +316,13 @@ def generate(repo):
             rel = os.path.relpath(p, repo)
             with open(p) as fh:
                 tree = ast.parse(fh.read())
+            normal_form(tree)
             ent = {}
             for key, fn in functions(tree):
                 fps = fingerprints(fn)
-                if fps:
-                    ent[key] = fps
+                cmps = sorted(set(_text(n) for n in _own(fn) if _flippable(n)))
+                if fps or cmps:
+                    ent[key] = {'locals': fps, 'cmp': cmps}
             if ent:
                 out[rel] = ent
     return out
@@ -248,4 +336,4 @@ if __name__ == '__main__':
         with open(TABLE, 'w') as fh:
             json.dump(t, fh, indent=0, sort_keys=True)
         print('reference table: %d modules, %d functions, %d locals' % (
-            len(t), sum(len(v) for v in t.values()), sum(len(x) for v in t.values() for x in v.values())))
+            len(t), sum(len(v) for v in t.values()), sum(len(x['locals']) for v in t.values() for x in v.values())))
